@@ -572,6 +572,8 @@ inductive NameQ where
   | surOuts (includeFluxes : Bool)
   | surRxns
   | unusedPars
+  /-- keys of `get_raw_variables()` … `get_raw_surrogates()` (deep copies of the containers) -/
+  | rawVars | rawPars | rawDerived | rawRxns | rawReadouts | rawSurs
 
 inductive Query where
   | init
@@ -733,6 +735,12 @@ def answer (c : Content) (cache : Cache) : Query → Except Err Ans
   | .names (.surOuts b) => .ok (.names (surOutNames c b))
   | .names .surRxns => .ok (.names (surRxnNames c))
   | .names .unusedPars => .ok (.names (unusedPars c))
+  | .names .rawVars => .ok (.names (omKeys c.vars))
+  | .names .rawPars => .ok (.names (omKeys c.pars))
+  | .names .rawDerived => .ok (.names (omKeys c.derived))
+  | .names .rawRxns => .ok (.names (omKeys c.rxns))
+  | .names .rawReadouts => .ok (.names (omKeys c.readouts))
+  | .names .rawSurs => .ok (.names (omKeys c.surs))
   | .argNames fl => .ok (.names (argNames c cache fl))
   | .rawStoich x => (rawStoichOf c x).map Ans.coefs
   | .argsTC rows fl => do
